@@ -104,15 +104,26 @@ def modes_shard(args):
     os.makedirs(common.SCRATCH, exist_ok=True)
     for i in range(n):
         kind = rng.choice(["string", "array", "object", "number", "any", "string", "array", "object", "object_of_strings",
-                           "object_of_arrays"])
-        if kind == "object_of_strings":
+                           "object_of_arrays", "history_object"])
+        hist_src = None
+        if kind == "history_object":
+            # an object that is the result of a construction history (inheritance, hidden / forced-visible overrides, +:,
+            # std.objectRemoveKey): -m must write exactly the fields the layer-deletion model calls visible
+            import genrmkey
+            h = genrmkey.gen(rng)
+            head, root = genrmkey.render(h)
+            v = genrmkey.model(h)[0]
+            hist_src = "(" + head + root + ")"
+        elif kind == "object_of_strings":
             v = {n_: clean(gen_value(rng, "string")) for n_ in rng.sample(SAFE_NAMES, rng.randint(1, 4))}
         elif kind == "object_of_arrays":
             v = {n_: clean(gen_value(rng, "array")) for n_ in rng.sample(SAFE_NAMES, rng.randint(1, 3))}
         else:
             v = clean(gen_value(rng, kind))
         src = jval(v) if not isinstance(v, float) else common.jnum(v)
-        if rng.random() < 0.4 and not isinstance(v, float):
+        if hist_src is not None:
+            src = hist_src
+        elif rng.random() < 0.4 and not isinstance(v, float):
             # the same value written with hidden / forced-visible / inherited / computed / removed fields, comprehensions
             from checks.c05 import fancy
             src = fancy(v, rng)
@@ -137,7 +148,9 @@ def modes_shard(args):
             flags = []
             mode = rng.choice(["plain", "S", "y", "m", "S", "y", "m", "Sy"])
             sub = None          # per-file mode under -m
-            if kind == "object_of_strings":
+            if kind == "history_object":
+                mode = rng.choice(["m", "m", "plain"])
+            elif kind == "object_of_strings":
                 mode, sub = "m", rng.choice(["S", "S", None])
             elif kind == "object_of_arrays":
                 mode, sub = "m", rng.choice(["y", "y", None])
@@ -658,7 +671,7 @@ def run(tier, seed):
     for a in common.pmap(failing_programs_shard, [(seed * 1319 + i, n3 // 16) for i in range(16)]):
         total.merge(a)
     rule = ("real release binary, one child per case: (1) generated values of matching and mismatching type x input "
-            "channel (-e, stdin, file) x mode (plain, -S, -y, -m, -m -S, -m -y, -S -y; strings that begin/end the way the framing does: newlines, ..., ---; values also written with hidden / forced-visible / inherited / computed fields; output targets that already exist with longer, shorter or empty content; the value as the result of a top-level function with defaults / no parameters / bound by --tla-code / --tla-str) x -o x --no-trailing-newline x -s x -t: exit "
+            "channel (-e, stdin, file) x mode (plain, -S, -y, -m, -m -S, -m -y, -S -y; strings that begin/end the way the framing does: newlines, ..., ---; values also written with hidden / forced-visible / inherited / computed fields; output targets that already exist with longer, shorter or empty content; objects built by a construction history (genrmkey) under -m; the value as the result of a top-level function with defaults / no parameters / bound by --tla-code / --tla-str) x -o x --no-trailing-newline x -s x -t: exit "
             "status and every output channel against a model of the modes derived from the plain run (string itself, "
             "--- item ... framing, one file per visible field + path list, only the last newline dropped); (2) "
             "ext vars / TLAs in all eight forms with values containing '=', quotes, newlines, non-ASCII, from the "
